@@ -75,7 +75,8 @@ ReadsOK(cands, gets, i) == IF i > Len(gets) THEN TRUE
 BoundOK(e) == Rec[h].policy # "random" \/ e.bytes <= Rec[h].L + Rec[h].slack
 (* ... and, with nothing in flight, the accounted bytes are exactly the stored bytes (C15) - otherwise the  *)
 (* limit enforced from now on is off by the difference (C14)                                              *)
-AcctOK(e) == Rec[h].policy # "random" \/ e.usage = NatToStr(e.bytes)
+\* (the counter lives in MemoryStore whatever the policy: checked for every program)
+AcctOK(e) == "usage" \notin DOMAIN e \/ e.usage = "" \/ e.usage = NatToStr(e.bytes)
 (***************************************************************************)
 (* Equivalence to a sequential execution OF THE IMPLEMENTATION (C03, C04:  *)
 (* "every concurrent history is equivalent to a sequential one").  The     *)
